@@ -120,7 +120,7 @@ func cmdCheck(mode string, args []string) {
 		run.Out = *verif
 	}
 	initSlots(*verif)
-	wantSiteCovers = os.Getenv("GOVC_SITE_COVERS") != "" || *tier == "thorough"
+	wantSiteCovers = os.Getenv("GOVC_NO_SITE_COVERS") == ""
 	dirs, err := contractPackages(*repo, *prop)
 	if err != nil || len(dirs) == 0 {
 		run.fatal("no contract files mention %s under %s (hooks missing?)", *prop, *repo)
